@@ -2,6 +2,7 @@
 """Writes /verif/seeded/<id>/meta.json from the agent's notes, my confirmation log and the detection matrix."""
 import json, os, re, sys
 base='/verif/seeded'
+TITLE_OVERRIDE={'C16-m3':'v2 filtering subscriber: a converter returning None reports the subscriber as gone (subscription dropped at the first filtered message)','C17-m3':'an authentication message without content is ignored instead of closing the session','C18-m3':'is_elected ranks the session against unauthenticated claimants too (ready event withheld while an impostor out-ranks the real link)','C20-m3':'group joins are announced to the peer only for members that are already Running (an actor joining from its own pre_start is never mirrored)','C13-m3':'a worker that dies while the factory is draining is retired together with the jobs parked on it'}
 detect={}
 if os.path.exists(base+'/detect.tsv'):
     for l in open(base+'/detect.tsv'):
@@ -13,6 +14,7 @@ for d in sorted(os.listdir(base)):
     prop=d.split('-')[0]
     notes=open(p+'/agent-notes.md').read() if os.path.exists(p+'/agent-notes.md') else ''
     title=notes.splitlines()[0].lstrip('# ').strip() if notes else d
+    title=TITLE_OVERRIDE.get(d,title)
     def section(rx):
         m=re.search(r'^## (?:'+rx+r')[^\n]*\n(.*?)(?=^## |\Z)', notes, re.S|re.M|re.I)
         return re.sub(r'\s+',' ',m.group(1)).strip() if m else ''
